@@ -25,8 +25,9 @@ func (engine) CoqCaseType() string { return "ccase" }
 
 // Case is either a graph case or a channel trace.
 type Case struct {
-	Graph *gg.Case  `json:"graph,omitempty"`
-	Chan  *ChanCase `json:"chan,omitempty"`
+	Graph  *gg.Case   `json:"graph,omitempty"`
+	Chan   *ChanCase  `json:"chan,omitempty"`
+	Family []*gg.Case `json:"family,omitempty"` // one graph under every combination of branch outcomes
 }
 
 type ChanOp struct {
@@ -84,74 +85,11 @@ func genChan(r *lib.Rng, tier string) *ChanCase {
 	return c
 }
 
-// eagerClean: in a Workflow (eager mode) a node that is both a direct control successor and a branch end of the
-// same source is skipped or not depending on which of its predecessors completes first (the skip report of the
-// branch is overridden by the dependency report only while some other entry is not skipped): the outcome
-// depends on goroutine timing, which the harness cannot observe. The direct dependency is turned into the
-// documented Workflow pattern "branch + data-only input" (WithNoDirectDependency). Batch-mode graphs keep the
-// shape: there every skip report of a step precedes every dependency report, whatever the order.
-func eagerClean(c *gg.Case) *gg.Case {
-	for gi := range c.Forest {
-		g := &c.Forest[gi]
-		if !g.Eager() {
-			continue
-		}
-		for ni := range g.Nodes {
-			n := &g.Nodes[ni]
-			if n.Key == gg.START {
-				continue // START is resolved alone, before anything runs: no race
-			}
-			// END needs a direct control edge ("end node not set" otherwise): if this is the only one, the
-			// branches of n that lead to END are dropped instead of the edge
-			otherEnd := false
-			for oi := range g.Nodes {
-				if oi != ni {
-					for _, t := range g.Nodes[oi].CSucc {
-						otherEnd = otherEnd || t == gg.END
-					}
-				}
-			}
-			if !otherEnd {
-				var bs []gg.Branch
-				for bi := range n.Branches {
-					toEnd := false
-					for _, e := range n.Branches[bi].Ends {
-						toEnd = toEnd || e == gg.END
-					}
-					hasEdge := false
-					for _, t := range n.CSucc {
-						hasEdge = hasEdge || t == gg.END
-					}
-					if !(toEnd && hasEdge) {
-						bs = append(bs, n.Branches[bi])
-					}
-				}
-				n.Branches = bs
-			}
-			var keep []uint64
-			for _, t := range n.CSucc {
-				inBranch := false
-				for bi := range n.Branches {
-					for _, e := range n.Branches[bi].Ends {
-						inBranch = inBranch || e == t
-					}
-				}
-				if !inBranch {
-					keep = append(keep, t)
-				}
-			}
-			n.CSucc = keep
-		}
-	}
-	return c
-}
-
+// Until /repo 665541a a node that is both a direct control successor and a branch end of the same source was
+// skipped or not depending on goroutine timing in eager mode (Workflow); since then the edge wins (the node is
+// not reported as skipped), the shape is deterministic and is generated in Workflows too.
 func (engine) Generate(r *lib.Rng, tier string, i int) any {
-	c := generate(r, tier, i)
-	if c.Graph != nil {
-		eagerClean(c.Graph)
-	}
-	return c
+	return generate(r, tier, i)
 }
 
 func generate(r *lib.Rng, tier string, i int) *Case {
@@ -160,9 +98,11 @@ func generate(r *lib.Rng, tier string, i int) *Case {
 		o = gg.Thorough()
 	}
 	o.FailProb = 4
-	switch x := r.Intn(22); {
+	switch x := r.Intn(24); {
 	case x < 4:
 		return &Case{Chan: genChan(r, tier)}
+	case x >= 22:
+		return &Case{Family: genFamily(r, o)}
 	case x >= 20:
 		// a control cycle (or, one time in four, a cycle closed by a data-only edge, which validateDAG does not see)
 		var c *gg.Case
@@ -191,8 +131,8 @@ func (engine) Decode(raw json.RawMessage) (any, error) {
 	if err := json.Unmarshal(raw, &c); err != nil {
 		return nil, err
 	}
-	if c.Graph == nil && c.Chan == nil {
-		return nil, fmt.Errorf("case needs graph or chan")
+	if c.Graph == nil && c.Chan == nil && len(c.Family) == 0 {
+		return nil, fmt.Errorf("case needs graph, chan or family")
 	}
 	if c.Graph != nil && (len(c.Graph.Forest) == 0 || c.Graph.Input == nil) {
 		return nil, fmt.Errorf("graph case needs forest and input")
@@ -390,6 +330,9 @@ func (engine) Run(c any) lib.Result {
 		res.Nontrivial = len(cs.Chan.Ops) >= 4 && len(cs.Chan.Ctrl)+len(cs.Chan.Data) > 0
 		return res
 	}
+	if len(cs.Family) > 0 {
+		return runFamily(cs.Family)
+	}
 	g := cs.Graph
 	obs := gg.Run(g, gg.RunOpts{})
 	res := lib.Result{Obs: obs, Tags: append(gg.Tags(g, obs), "kind:graph")}
@@ -425,6 +368,42 @@ func (engine) Run(c any) lib.Result {
 		}
 	}
 	res.Nontrivial = gg.Nontrivial(g, obs)
+	return res
+}
+
+// runFamily runs every member; the record is in the model only if every member is.
+func runFamily(fam []*gg.Case) lib.Result {
+	res := lib.Result{Tags: []string{"kind:family", fmt.Sprintf("family:%d", len(fam))}, Nontrivial: len(fam) >= 2}
+	var obsAll []*gg.Obs
+	var terms []string
+	inModel := true
+	for _, g := range fam {
+		obs := gg.Run(g, gg.RunOpts{})
+		obsAll = append(obsAll, obs)
+		if obs.Class == "compile" || obs.Class == "budget" {
+			inModel = false
+			continue
+		}
+		terms = append(terms, g.CoqCase(obs))
+		if res.Oracle == "" && (obs.Class == "hang" || obs.Class == "panic") {
+			res.Oracle, res.Sig = "Invoke of a compiled all-predecessor graph ended with "+obs.Class+": "+obs.ErrMsg, "dag-"+obs.Class
+		}
+		if res.Oracle == "" && hasControlCycle(g) {
+			res.Oracle, res.Sig = "a graph with a control cycle compiled in all-predecessor mode", "dag-cycle-accepted"
+		}
+		if res.Oracle == "" {
+			res.Oracle, res.Sig = oracleDAG(g, obs)
+		}
+		if msg, sig, judged := oracleSpec(g, obs); judged && res.Oracle == "" {
+			res.Oracle, res.Sig = msg, sig
+		}
+	}
+	res.Obs = map[string]any{"members": obsAll}
+	if inModel {
+		res.CoqTerm = "(CFamily " + lib.CoqList(terms) + ")"
+	} else {
+		res.Tags = append(res.Tags, "not-in-model:family")
+	}
 	return res
 }
 
